@@ -83,6 +83,7 @@ _built = {}
 def build_harness(variant="asan", extra=""):
     """compile /repo's current working tree + the harness into the scratch dir"""
     key = (variant, extra)
+    if os.environ.get("ADFH_EXE_OVERRIDE"): return os.environ["ADFH_EXE_OVERRIDE"]     # developer tool tools/covreport.py only
     if key in _built: return _built[key]
     out = os.path.join(scratch(), "build")
     os.makedirs(out, exist_ok=True)
